@@ -112,6 +112,7 @@ Definition verdict_out (v : verdict) : list str :=
   | VLink t => [[108;105;110;107]; dec_of_N t]                                 (* link *)
   | VBracketUnmatched p => [[117;110;109;97;116;99;104;101;100]; dec_of_N p]   (* unmatched *)
   | VBracketLink p => [[98;114;97;99;107;101;116]; dec_of_N p]                 (* bracket *)
+  | VNesting p => [[110;101;115;116;105;110;103]; dec_of_N p]                  (* nesting *)
   end.
 
 Definition resolve_out (d : doc) : list str :=
